@@ -18,7 +18,7 @@ RULE = (
     "or typed int chain), run under the sequential loop (debug worker, pydra-call budget) and under the async loop "
     "(simulated pool); (b) acyclic generated workflow on the simulated pool with one progress-removing fault: pool "
     "worker SIGKILLed mid-job, result file deleted after the job finished, stale job lock left by a dead local PID, "
-    "stale job lock naming another host.  Oracle (bounded liveness): after the last fault the submission returns or "
+    "stale job lock naming another host; (c) acyclic workflows under the sequential loop with a max_concurrent limit.  Oracle (bounded liveness): after the last fault the submission returns or "
     "raises within 600 simulated seconds, 300k scheduler steps and 3M pydra function calls.  Non-trivial = a cycle was "
     "really built or a fault really fired; distinct = distinct (kind, workflow, step digest)."
 )
@@ -30,9 +30,9 @@ ASSUMPTIONS = [
     "termination is judged by deterministic budgets (pydra function calls, scheduler steps, simulated seconds), never by a wall clock",
     "a real ProcessPoolExecutor marks the pool broken when a worker dies; SimPool reproduces exactly that",
 ]
-PROBES = ["cycle_built", "stall_branch_entered", "worker_killed", "result_lost", "stale_lock_placed", "broken_pool"]
+PROBES = ["sequential_loop_with_limit", "cycle_built", "stall_branch_entered", "worker_killed", "result_lost", "stale_lock_placed", "broken_pool"]
 N = {"quick": 260, "thorough": 6000}
-KINDS = ["cycle-untyped/debug", "cycle-untyped/cf", "cycle-typed/debug", "cycle-typed/cf", "fault/kill-worker", "fault/lose-result", "fault/stale-lock-deadpid", "fault/stale-lock-foreign", "acyclic/cf"]
+KINDS = ["cycle-untyped/debug", "cycle-untyped/cf", "cycle-typed/debug", "cycle-typed/cf", "fault/kill-worker", "fault/lose-result", "fault/stale-lock-deadpid", "fault/stale-lock-foreign", "acyclic/cf", "acyclic/debug"]
 
 
 def plan(tier, seed):
@@ -78,18 +78,22 @@ def run_case(case, ch, workdir):
     if kind.endswith("/debug"):
         import hashlib
 
+        mc = ch.pick([None, 1, 1, 2, 3], "max_concurrent") if kind == "acyclic/debug" else None
+        kw = {} if mc is None else {"max_concurrent": mc}
+        res["sample"]["max_concurrent"] = mc
+
         def go():
-            out = task(cache_root=cache, worker="debug")
+            out = task(cache_root=cache, worker="debug", **kw)
             return wc.plain(out.out)
 
         status, val = simloop.run_budgeted(go, max_calls=600_000)
-        res["digest"] = hashlib.sha256(repr((kind, desc, status)).encode()).hexdigest()[:20]
+        res["digest"] = hashlib.sha256(repr((kind, desc, status, mc)).encode()).hexdigest()[:20]
         res["nontrivial"] = True
-        res["probes"] = {"cycle_built": 1}
+        res["probes"] = {"cycle_built": 1} if kind.startswith("cycle") else {"sequential_loop_with_limit": 1 if mc else 0}
         res["sample"]["status"] = status
         if status == "hang":
-            violation(res, "no-termination", sig, f"sequential loop did not terminate: {val} (workflow: {desc})")
-        elif status == "ok":
+            violation(res, "no-termination", sig, f"sequential loop did not terminate: {val} (workflow: {desc}, max_concurrent={mc})")
+        elif status == "ok" and kind.startswith("cycle"):
             violation(res, "cycle-accepted", sig, f"cyclic workflow returned outputs {str(val)[:200]} (workflow: {desc})")
         return res
 
